@@ -7,6 +7,13 @@ Pass 2 (sched-asan, post-release scheduling points): a stale access after the ha
 deterministic heap-use-after-free because the application frees every object the moment read()
 returns it.
 Stage TF adds write sessions whose compression thread ends with an exception (level 10: documented, rejected by zlib)."""
+import json
+import os
+import subprocess
+import time
+from concurrent.futures import ThreadPoolExecutor
+
+import driver
 from checks import schedcheck, sessions as S
 
 ASSUME = [
@@ -47,5 +54,76 @@ def stages(tier):
     return st
 
 
+def fresh_process_part(tier, budget):
+    """Every schedule with at most one deviation of a few write sessions, each in a process of its own: state that lives as
+    long as the process (function-local statics, lazily grown scratch buffers shared by the workers) is in its initial state
+    only in the first execution of a process, which the in-process re-execution of the other stages explores with the
+    default schedule only."""
+    exe = driver.harness("h_session", "sched-tsan")
+    env = dict(os.environ)
+    env.update(driver.SAN_ENV)
+    # a deviation that does not exist ends the process from inside the scheduler with its threads still alive
+    env["TSAN_OPTIONS"] = driver.SAN_ENV["TSAN_OPTIONS"] + " report_thread_leaks=0"
+    quick = tier == "quick"
+    cfgs = []
+    for objs in ([49, 50, 51], [51, 48]) if quick else ([49, 50, 51], [51, 48], [49], [129, 49]):
+        for c in (65, 67) if quick else (33, 65, 66, 67):
+            for lv in (0,) if quick else (0, 6):
+                cfgs.append(S.cfg("w", objs, 64, c, 2, -1, "close", lv, 0, hook=0, inv=0, fresh=1))
+    for objs in ([49, 51],):
+        cfgs.append(S.cfg("r", objs, 64, 65, 2, -1, "close", 0, 0, hook=0, inv=0, fresh=1))
+
+    def run(args):
+        try:
+            r = subprocess.run([exe] + args, capture_output=True, text=True, env=env, timeout=120)
+        except subprocess.TimeoutExpired:
+            return {"infra": "timeout", "args": args}
+        for l in r.stdout.splitlines():
+            if l.startswith("{"):
+                try:
+                    return json.loads(l)
+                except ValueError:
+                    pass
+        return {"infra": "no result (rc %d)" % r.returncode, "args": args, "stderr": r.stderr[-1500:]}
+
+    t0 = time.time()
+    viol, infra = [], []
+    execs = points = 0
+    jobs = []
+    with ThreadPoolExecutor(driver.NCPU) as ex:
+        base = list(ex.map(lambda c: run(c.split() + ["replay=-"]), cfgs))
+        for c, b in zip(cfgs, base):
+            if b.get("infra"):
+                infra.append(b)
+                continue
+            if b.get("violation"):
+                viol.append(driver.sched_violation("C11", b, "sched-tsan", "h_session"))
+                continue
+            for i in range(int(b.get("max_choices", 0)) + 2):
+                for alt in (1, 2):
+                    jobs.append(c.split() + ["replay=%d:%d" % (i, alt)])
+        seen = set()
+        for r in ex.map(run, jobs):
+            if r.get("infra"):
+                infra.append(r)
+                continue
+            v = r.get("violation")
+            if v and v.get("kind") == "replay-divergence" and any(t in v.get("detail", "") for t in ("out of range", "skipped", "ended before")):
+                continue        # no such schedule: fewer alternatives / fewer choice points than tried
+            execs += r.get("executions", 0)
+            points += r.get("points", 0)
+            if v:
+                rec = driver.sched_violation("C11", r, "sched-tsan", "h_session")
+                k = rec["key"]
+                if k not in seen:
+                    seen.add(k)
+                    viol.append(rec)
+    cov = {"_key": "fresh_process_part", "states": execs, "transitions": points, "exhaustive": True, "configurations": len(cfgs), "schedules_each_in_a_fresh_process": execs,
+           "wall_s": round(time.time() - t0, 1),
+           "what": "write (and one read) sessions with padded objects and padded containers: the default schedule and every single deviation, "
+                   "one process per schedule, under ThreadSanitizer"}
+    return viol, infra, cov
+
+
 def main(argv):
-    return schedcheck.run_stages("C11", argv, stages, assumptions=ASSUME)
+    return schedcheck.run_stages("C11", argv, stages, assumptions=ASSUME, extra=fresh_process_part)
